@@ -473,6 +473,7 @@ enum FileState {
     Absent,
     Exact,               // equals the projection of the truth stream
     WellFormedDiffers,   // every line/record parses and the reader's own validation passes, but it is not the projection
+    Empty,               // the file exists and holds no line at all
     Malformed,
 }
 fn jsonl_lines(raw: &[u8]) -> Vec<&[u8]> {
@@ -515,7 +516,7 @@ fn classify_derived_jsonl(root: &Path, id: &str, a: &Abs, t: Target) -> FileStat
         }
     }
     if got.is_empty() {
-        return FileState::Malformed;
+        return FileState::Empty;
     }
     if got.len() == want.len() && got.iter().zip(want.iter()).all(|(g, w)| *g == w.id) { FileState::Exact } else { FileState::WellFormedDiffers }
 }
@@ -550,6 +551,7 @@ fn classify_ord(root: &Path, id: &str, a: &Abs) -> FileState {
 }
 
 struct Coherence {
+    truth_valid: bool, // the thread's frames in events.jsonl carry seq 0,1,2,.. (a precondition of the property, owned by C01/C05)
     full: FileState,
     full_stale_prefix: bool,
     mr: FileState,
@@ -559,7 +561,7 @@ struct Coherence {
 }
 fn coherence(root: &Path, id: &str, a: &Abs) -> Coherence {
     let (full, pre) = classify_full(root, id, a);
-    Coherence { full, full_stale_prefix: pre, mr: classify_derived_jsonl(root, id, a, Target::Mr), comp: classify_derived_jsonl(root, id, a, Target::Comp), compidx: classify_compidx(root, id, a), ord: classify_ord(root, id, a) }
+    Coherence { truth_valid: a.truth.iter().enumerate().all(|(i, e)| e.seq == i as u64), full, full_stale_prefix: pre, mr: classify_derived_jsonl(root, id, a, Target::Mr), comp: classify_derived_jsonl(root, id, a, Target::Comp), compidx: classify_compidx(root, id, a), ord: classify_ord(root, id, a) }
 }
 /// executable class of a fast/truth disagreement
 fn classify_violation(c: &Coherence, fast: &Ans, q: &Q) -> String {
@@ -579,11 +581,19 @@ fn classify_violation(c: &Coherence, fast: &Ans, q: &Q) -> String {
     if *fast == Ans::Panic {
         return "panic".into();
     }
+    if !c.truth_valid {
+        // S3's second half: after a restart on a stale sidecar load_next_seq_for re-issued a seq => the truth
+        // stream itself no longer validates (C01/C05 own that defect; here it only explains the disagreement)
+        return "truth_stream_seq_reissued_after_stale_sidecar".into();
+    }
     if c.full == FileState::WellFormedDiffers && c.full_stale_prefix {
         return "full_sidecar_wellformed_stale_prefix".into();
     }
     if c.mr == FileState::WellFormedDiffers || c.comp == FileState::WellFormedDiffers {
         return "derived_sidecar_wellformed_not_projection".into();
+    }
+    if c.mr == FileState::Empty || c.comp == FileState::Empty {
+        return "derived_sidecar_zero_length_accepted".into();
     }
     if c.compidx == FileState::WellFormedDiffers || c.ord == FileState::WellFormedDiffers {
         return "derived_index_wellformed_not_projection".into();
@@ -860,6 +870,24 @@ fn corpus_cases() -> Vec<Case> {
         queries: vec![Q::CutPoints { stride: 1, limit: 4 }],
         long: false,
     });
+    // full sidecar lost, then re-created by later appends: a well-formed suffix of the stream (fixed: scan_tail)
+    v.push(Case {
+        ops: vec![Op::Msg { size: 5 }, Op::Cursor { key: 100 }, Op::Selection, Op::Fault { target: Target::Full, kind: FaultKind::Delete }, Op::Msg { size: 5 }, Op::SideFx],
+        queries: vec![Q::CursorStatus, Q::Selection { limit: 10 }, Q::Rotate { p: None, e: None, m: None }, Q::CompactionStatus { stride: 1 }, Q::Replay],
+        long: false,
+    });
+    // S2 without any fault: two decisions inside the first 256 KiB window, more than 256 KiB before them
+    v.push(Case {
+        ops: vec![Op::Msg { size: 70_000 }, Op::Msg { size: 140_000 }, Op::Msg { size: 70_000 }, Op::Selection, Op::Msg { size: 200 }, Op::Selection],
+        queries: vec![Q::Selection { limit: 3 }, Q::Selection { limit: 10 }],
+        long: false,
+    });
+    // checkpoint sidecar truncated to zero bytes
+    v.push(Case {
+        ops: vec![Op::Msg { size: 5 }, Op::Msg { size: 5 }, Op::Checkpoint { msg: 1 }, Op::Fault { target: Target::Comp, kind: FaultKind::TruncLines(1000) }],
+        queries: vec![Q::CutPoints { stride: 2, limit: 4 }, Q::CompactionStatus { stride: 2 }],
+        long: false,
+    });
     // inflight job, full sidecar deleted while the derived caches stay
     v.push(Case {
         ops: vec![Op::Msg { size: 5 }, Op::Msg { size: 5 }, Op::Schedule { stride: 1, max_new: 1, execute: false }, Op::Fault { target: Target::Full, kind: FaultKind::Delete }],
@@ -919,11 +947,15 @@ fn run_case(case: &Case) -> Outcome {
     let abs = abstract_truth(&root, &b.id);
     let full = abstract_full(&root, &b.id, &abs);
     let coh = coherence(&root, &b.id, &abs);
-    let secs = if case.long { 25 } else { 10 };
+    let secs = if case.long { 120 } else { 90 };
+    let mut hung = false;
     let fast_root = root.join("copy-fast");
     let truth_root = root.join("copy-truth");
     let mut results = vec![];
     for q in &case.queries {
+        if hung {
+            break; // one hang per case is reported; the leaked thread keeps a core busy
+        }
         for r in [&fast_root, &truth_root] {
             let _ = std::fs::remove_dir_all(r);
             std::fs::create_dir_all(r.join("data")).unwrap();
@@ -939,7 +971,8 @@ fn run_case(case: &Case) -> Outcome {
             copy_dir(&streams_dir(&root), &streams_dir(&fast_root));
         }
         let fast = with_watchdog(secs, fast_root.clone(), b.id.clone(), b.messages.clone(), q.clone());
-        let truth = with_watchdog(secs.max(25), truth_root.clone(), b.id.clone(), b.messages.clone(), q.clone());
+        let truth = if fast == Ans::Hang { Ans::Err("not evaluated (fast path hung)".into()) } else { with_watchdog(secs, truth_root.clone(), b.id.clone(), b.messages.clone(), q.clone()) };
+        hung = fast == Ans::Hang || truth == Ans::Hang;
         results.push((q.clone(), fast, truth));
     }
     Outcome { results, abs, full, coh, messages: b.messages.clone(), op_errors: b.op_errors }
@@ -1042,6 +1075,12 @@ fn main() {
         }
     }
 
+    // corpus files may repeat built-in cases: run each distinct case once
+    {
+        let mut seen = std::collections::HashSet::new();
+        cases.retain(|c| seen.insert(serde_json::to_string(&case_json(c)).unwrap()));
+    }
+
     let k_term = "{| k_loops := gen_loops; k_max_keys := gen_cursor_max_keys; k_inflight_events := gen_inflight_events; k_inflight_bytes := gen_inflight_bytes |}";
     let mut w = CaseWriter::new(&a.out, "Model.TailLoop Model.Cache Gen.TailLoops", &format!("(check_case {k_term})"), &format!("(model_obs {k_term})"), 60);
     let mut distinct = Distinct::default();
@@ -1055,6 +1094,9 @@ fn main() {
         res.bump(&format!("faults={}", nf.min(4)));
         res.bump(&format!("frames={}", match out.abs.truth.len() { 0..=5 => "1-5", 6..=15 => "6-15", 16..=40 => "16-40", 41..=9999 => "41-9999", _ => "10000+" }));
         res.bump(&format!("full={:?}", out.coh.full));
+        if !out.coh.truth_valid {
+            res.bump("truth_stream_invalid");
+        }
         for op in &case.ops {
             if let Op::Fault { target, kind } = op {
                 res.bump(&format!("fault:{:?}", target));
@@ -1073,7 +1115,7 @@ fn main() {
             // ---- model cases
             let fast_enc = enc_answer(&out.abs, q, fast);
             let truth_enc = enc_answer(&out.abs, q, truth);
-            if !a.oracle_only() && !case.long && out.abs.truth.len() <= 400 {
+            if !a.oracle_only() && !case.long && out.coh.truth_valid && out.abs.truth.len() <= 400 {
                 let log_term = coq_list(&(0..out.abs.truth.len()).collect::<Vec<_>>(), |i| coq_frame(&out.abs, *i));
                 let full_term = coq_opt(&out.full, |ls| coq_list(ls, |(g, x)| if *g { format!("G {x}") } else { format!("B {x}") }));
                 for (j, (which, cmp_fast)) in coq_queries(q).iter().enumerate() {
